@@ -148,7 +148,7 @@ def toml_keys_ok(v):
 
 
 def run(ctx):
-    n = 250 if ctx.tier == "quick" else 6000
+    n = ctx.n(250, 6000)
     rng = core.Rng(ctx.seed)
     fmts, _ = hist.formats_from_source()
     jobs = []
